@@ -836,21 +836,21 @@ pub fn check_par(case: &ParCase, obs: &mut Obs) {
 const HIST: PartCfg = PartCfg {
     name: "history",
     genome_len: 260,
-    cases_quick: 6000,
+    cases_quick: 16000,
     cases_thorough: 600_000,
     panic: PanicPolicy::Count,
 };
 const THREADS: PartCfg = PartCfg {
     name: "threads",
     genome_len: 260,
-    cases_quick: 96,
+    cases_quick: 192,
     cases_thorough: 20_000,
     panic: PanicPolicy::Count,
 };
 const PAR: PartCfg = PartCfg {
     name: "par_pure",
     genome_len: 12,
-    cases_quick: 300,
+    cases_quick: 600,
     cases_thorough: 20_000,
     panic: PanicPolicy::Count,
 };
